@@ -6,7 +6,7 @@ Import ListNotations.
 Definition b2n (b : bool) : nat := if b then 1 else 0.
 Definition err_code (e : err) : list nat :=
   match e with
-  | ErrTask i => [0; i] | ErrIter => [1; 0] | ErrTimeout => [2; 0] | ErrRuntime => [3; 0] | ErrAttr => [4; 0]
+  | ErrTask i => [0; i] | ErrIter => [1; 0] | ErrTimeout => [2; 0] | ErrRuntime => [3; 0] | ErrAttr => [4; 0] | ErrBackend => [5; 0]
   end.
 Definition obs_code (o : obs) : list nat :=
   match o with Val v => [0; v] | Stop => [1] | Raised e => 2 :: err_code e end.
